@@ -2,7 +2,8 @@
 copy of /verif (own Lean build directory, own evidence and replay files) pointed at it with VERIF_REPO; /repo and /verif
 themselves are not touched, every scratch directory is removed when its run is over.
 
-usage: pmutants.py [-j N] [--props C07,C08] [name ...]     (default: each change against the check of its own property)
+usage: pmutants.py [-j N] [--props C07,C08 | --all] [--dir seeded_harmless] [name ...]
+       (default: directory seeded/, each change against the check of its own property; --all = every claimed check)
 Merges the outcomes into /verif/seeded/RESULTS.json and prints the table."""
 import json, os, shutil, subprocess, sys, time
 from concurrent.futures import ThreadPoolExecutor
@@ -15,10 +16,13 @@ def sh(cmd, **kw):
     return subprocess.run(cmd, stdout=subprocess.PIPE, stderr=subprocess.STDOUT, text=True, **kw)
 
 
+DIR = 'seeded'
+
+
 def one(name, props):
-    d = VERIF / 'seeded' / name
+    d = VERIF / DIR / name
     meta = json.loads((d / 'meta.json').read_text())
-    prop = meta['property']
+    prop = meta.get('property', '-')
     root = SCRATCH / name
     shutil.rmtree(root, ignore_errors=True)
     root.mkdir(parents=True)
@@ -48,6 +52,7 @@ def one(name, props):
 
 def main(argv):
     args = argv[1:]
+    global DIR
     jobs, props, names = 5, None, []
     while args:
         a = args.pop(0)
@@ -55,9 +60,13 @@ def main(argv):
             jobs = int(args.pop(0))
         elif a == '--props':
             props = args.pop(0).split(',')
+        elif a == '--all':
+            props = [c['property_id'] for c in json.loads((VERIF / 'MANIFEST.json').read_text())['checks']]
+        elif a == '--dir':
+            DIR = args.pop(0)
         else:
             names.append(a)
-    seeded = VERIF / 'seeded'
+    seeded = VERIF / DIR
     dirs = sorted(d.name for d in seeded.iterdir() if d.is_dir() and (d / 'patch.diff').exists() and (not names or d.name in names))
     results = json.loads((seeded / 'RESULTS.json').read_text()) if (seeded / 'RESULTS.json').exists() else {}
     with ThreadPoolExecutor(jobs) as ex:
@@ -73,6 +82,10 @@ def main(argv):
             kind = '-'
             if own.get('violations'):
                 kind = 'concrete' if any('no-failing-input-found' not in x for x in own['violations']) else 'no-failing-input'
+            red = {p: c.get('violations') or c.get('summary') for p, c in res.get('checks', {}).items() if c.get('rc') != 0}
+            if prop == '-':
+                print(f'{name:45s} red={red or "none"}', flush=True)
+                continue
             print(f'{name:10s} {prop} rc={own.get("rc")} {kind:16s} also-red={others} {res.get("error", "")}', flush=True)
     (seeded / 'RESULTS.json').write_text(json.dumps(results, indent=1))
     sh(['git', '-C', '/repo', 'worktree', 'prune'])
